@@ -4,8 +4,9 @@ from .. import net
 
 ID = "C20"
 PROPS = ["theories/Props/C20.vo"]
-PINNED = ["C20_roundtrip", "C20_holds_outside", "C20_refuted_registration_outlives_wait",
-          "C20_refuted_registration_outlives_wait_cross", "C20_wake_hits", "C20_no_cross_wake"]
+PINNED = ["C20_roundtrip", "C20_holds_outside", "C20_no_tag_outside", "C20_reuse_wakes", "C20_refuted_registration_outlives_wait",
+          "C20_refuted_registration_outlives_wait_cross", "C20_refuted_one_token_per_descriptor",
+          "C20_wake_hits", "C20_no_cross_wake", "C20_unregistered_direction_has_no_waiter"]
 CASES_MODULE = "Cases.C20"
 HEADER = ""
 AREA = "net20"
@@ -14,164 +15,452 @@ TIMEOUT_MS = 30000
 LEVEL = "proof"
 SHRINK_KEY = "ops"
 SHARD_SIZE = 40
-RULE = ("histories of wait / timed-out wait / readiness / interest deletion over 2-4 socketpairs and 1-4 named "
-        "coroutines whose 64-bit ids are known (5 ids below 2^32, 16 with high bits); three quarters keep a "
-        "coroutine and a descriptor paired between deletions, the rest mix them freely; a case is non-trivial when "
-        "at least one readiness event was delivered to a waiting coroutine or missed one; distinct = distinct "
+HARNESS_JOBS = 8                 # real event-loop threads and real 30 ms waits: do not oversubscribe the machine
+RULE = ("histories of 3-14 operations over 2-3 socketpair ends pinned to fixed descriptor numbers and 1-4 named "
+        "coroutines whose 64-bit ids are known (5 ids below 2^32, 16 with high bits): wait / timed-out wait for "
+        "readability or writability, read readiness (a byte from the peer), write readiness (the full send buffer "
+        "drains), deletion of both interests / of one interest, hooked close, reuse of the closed descriptor number by "
+        "a new socket. Four families: 'clean' (45%; generated inside the premises of C20_holds_outside), "
+        "'reuse' (23%; both interests on one number, close, reuse, wait on the reused number, readiness), "
+        "'dirdel' (14%; both interests on one number, deletion of ONE of them, waits for what is left), "
+        "'free' (the rest; anything in range, coroutines mostly not already waiting). A case is non-trivial when a "
+        "readiness event was delivered to the loop or a waiter was left without one; distinct = distinct "
         "(nfd, op list)")
 TRUSTED = ["hook H5: verif::point(\"event_loop_resume\", token, hit) in EventLoop::resume and "
            "(\"event_loop_resumed\", token) after it in wait_just",
            "EventLoops::verif_submit_raw_co hands a caller-named coroutine to the loop (ids = DefaultHasher of the name)",
            "/proc/self/fdinfo/<epoll fd> shows the token the OS holds (data:) and the interest (events:)",
-           "a per-coroutine state listener reports Suspend / Callback / Timeout transitions"]
-ASSUMPTIONS = ["one event loop; read interest only (write readiness of a socketpair cannot be withheld)",
+           "a per-coroutine state listener reports Suspend / Callback / Timeout transitions",
+           "socketpair ends pinned to descriptor numbers 240.. with dup2, so a reopened slot reuses the number; "
+           "SO_SNDBUF at the minimum and filled with 64 KiB sends until EAGAIN: the slot is not writable until the "
+           "peer has read everything"]
+ASSUMPTIONS = ["one event loop",
                "epoll modelled as a table fd -> (interest, token): edge-triggered delivery of one event per arrival "
-               "of new data, carrying the stored token",
+               "of new data / per drain of the full send buffer, carrying the stored token and the flag of that "
+               "direction only",
+               "no descriptor is readable or writable at the moment an interest is registered or modified (data is "
+               "read off after every read-readiness step, the send buffer is refilled after every write-readiness "
+               "step): registration of an already-ready descriptor (immediate event) is not exercised",
                "a long wait (60 s) never expires within a case; a timed-out wait (30 ms) sees no readiness",
                "usize is 64 bits"]
 
-
-def _wait(kind, name, fd):
-    return {"op": kind, "name": name, "id": str(net.ALL_IDS[name]), "fd": fd}
+KINDS = ["wait", "waitt", "ready", "del", "close", "reopen"]
 
 
-def gen_case(rng, paired):
-    nfd = rng.randint(2, 4)
+def _wait(kind, d, name, fd):
+    return {"op": kind, "dir": d, "name": name, "id": str(net.ALL_IDS[name]), "fd": fd}
+
+
+def _names(rng):
     low = list(net.LOW_IDS)
     high = list(net.HIGH_IDS)
-    k = rng.randint(1, 4)
     names = []
-    for _ in range(k):
-        pool = low if rng.random() < 0.35 else high
-        n = rng.choice(pool)
+    for _ in range(rng.randint(1, 4)):
+        n = rng.choice(low if rng.random() < 0.35 else high)
         if n not in names:
             names.append(n)
-    spec = {}   # coroutine -> fd (or -1) by the specification tracker
-    bind = {}   # coroutine -> fd binding (paired mode)
-    ops = []
-    for _ in range(rng.randint(3, 12)):
+    return names
+
+
+class Spec:
+    """the specification's trackers (TokenOracle.v: spec_step, nd_step), used to steer generation"""
+
+    def __init__(self, nfd):
+        self.nfd = nfd
+        self.wait = {}      # coroutine -> (fd or -1, dir)
+        self.bind = {}      # coroutine -> fd
+        self.reg = set()    # (fd, dir)
+        self.closed = set()
+        self.ops = []
+
+    def free(self, names):
+        return [n for n in names if n not in self.wait]
+
+    def waiting_on(self, fd, d):
+        return [c for c, w in self.wait.items() if w == (fd, d)]
+
+    def forget(self, fd):
+        for c, (f, d) in list(self.wait.items()):
+            if f == fd:
+                self.wait[c] = (-1, d)
+        for c in [c for c, f in self.bind.items() if f == fd]:
+            del self.bind[c]
+        self.reg -= {(fd, "r"), (fd, "w")}
+
+    def push(self, o):
+        self.ops.append(o)
+        k = o["op"]
+        fd = o["fd"]
+        if k in ("wait", "waitt"):
+            if fd not in self.closed:
+                self.bind[o["name"]] = fd
+                self.reg.add((fd, o["dir"]))
+                if k == "wait":
+                    self.wait[o["name"]] = (fd, o["dir"])
+        elif k == "ready":
+            for c in self.waiting_on(fd, o["dir"]):
+                del self.wait[c]
+        elif k == "del":
+            d = o.get("dir")
+            if d is None:
+                self.forget(fd)
+            else:
+                for c in self.waiting_on(fd, d):
+                    self.wait[c] = (-1, d)
+                self.reg.discard((fd, d))
+                if (fd, "r") not in self.reg and (fd, "w") not in self.reg:
+                    for c in [c for c, f in self.bind.items() if f == fd]:
+                        del self.bind[c]
+        elif k == "close":
+            self.forget(fd)
+            self.closed.add(fd)
+        elif k == "reopen":
+            self.closed.discard(fd)
+
+    def bound_ok(self, c, fd):
+        if c in self.bind:
+            return self.bind[c] == fd
+        return fd not in self.bind.values()
+
+
+def _dir(rng):
+    return "w" if rng.random() < 0.5 else "r"
+
+
+def _other(d):
+    return "r" if d == "w" else "w"
+
+
+def gen_clean(rng):
+    """inside the premises of C20_holds_outside"""
+    nfd = rng.randint(2, 3)
+    names = _names(rng)
+    sp = Spec(nfd)
+    for _ in range(rng.randint(4, 14)):
         r = rng.random()
-        if r < 0.5:
-            kind = "wait" if r < 0.36 else "waitt"
-            free = [n for n in names if n not in spec]
+        if r < 0.45:
+            kind = "wait" if r < 0.33 else "waitt"
+            free = sp.free(names)
             if not free:
                 continue
             c = rng.choice(free)
-            if paired:
-                if c in bind:
-                    fd = bind[c]
-                else:
-                    cand = [f for f in range(nfd) if f not in bind.values()]
-                    if not cand:
-                        continue
-                    fd = rng.choice(cand)
-                    bind[c] = fd
+            if c in sp.bind:
+                fd = sp.bind[c]
             else:
-                fd = rng.randrange(nfd)
-            ops.append(_wait(kind, c, fd))
-            if kind == "wait":
-                spec[c] = fd
-        elif r < 0.87:
-            waited = [f for f in spec.values() if f >= 0]
-            fd = rng.choice(waited) if waited and rng.random() < 0.75 else rng.randrange(nfd)
-            ops.append({"op": "ready", "fd": fd})
-            for c in [c for c, f in spec.items() if f == fd]:
-                del spec[c]
+                cand = [f for f in range(nfd) if f not in sp.bind.values() and f not in sp.closed]
+                if not cand:
+                    continue
+                fd = rng.choice(cand)
+            if fd in sp.closed:
+                continue
+            sp.push(_wait(kind, _dir(rng), c, fd))
+        elif r < 0.78:
+            waited = sorted({w for w in sp.wait.values() if w[0] >= 0})
+            if waited and rng.random() < 0.8:
+                fd, d = rng.choice(waited)
+            else:
+                fd, d = rng.randrange(nfd), _dir(rng)
+            if sp.waiting_on(fd, _other(d)):
+                continue
+            sp.push({"op": "ready", "dir": d, "fd": fd})
+        elif r < 0.84:
+            sp.push({"op": "del", "fd": rng.randrange(nfd)})
+        elif r < 0.89:
+            fd, d = rng.randrange(nfd), _dir(rng)
+            if (fd, _other(d)) in sp.reg:
+                continue
+            sp.push({"op": "del", "dir": d, "fd": fd})
+        elif r < 0.95:
+            sp.push({"op": "close", "fd": rng.randrange(nfd)})
         else:
-            fd = rng.randrange(nfd)
-            ops.append({"op": "del", "fd": fd})
-            for c in spec:
-                if spec[c] == fd:
-                    spec[c] = -1
-            for c in [c for c, f in bind.items() if f == fd]:
-                del bind[c]
-    return {"nfd": nfd, "ops": ops, "paired": paired}
+            fd = rng.choice(sorted(sp.closed)) if sp.closed else rng.randrange(nfd)
+            sp.push({"op": "reopen", "fd": fd})
+        # a closed number is usually handed out again soon
+        if sp.closed and rng.random() < 0.5:
+            sp.push({"op": "reopen", "fd": rng.choice(sorted(sp.closed))})
+    return {"nfd": nfd, "ops": sp.ops, "family": "clean"}
+
+
+def gen_reuse(rng):
+    """both interests on one descriptor number, close, reuse of the number, a wait on the reused number,
+    readiness; by one coroutine (inside the premises) or by several"""
+    nfd = rng.randint(2, 3)
+    names = _names(rng)
+    fd = rng.randrange(nfd)
+    c = rng.choice(names)
+    other = [n for n in names if n != c]
+    ops = []
+    d1 = _dir(rng)
+    # first interest: a wait that ends (timed out, or resumed by its readiness)
+    if rng.random() < 0.5:
+        ops.append(_wait("waitt", d1, c, fd))
+    else:
+        ops.append(_wait("wait", d1, c, fd))
+        ops.append({"op": "ready", "dir": d1, "fd": fd})
+    # second interest on the same number
+    c2 = rng.choice(other) if other and rng.random() < 0.3 else c
+    if rng.random() < 0.5:
+        ops.append(_wait("waitt", _other(d1), c2, fd))
+    else:
+        ops.append(_wait("wait", _other(d1), c2, fd))
+        ops.append({"op": "ready", "dir": _other(d1), "fd": fd})
+    r = rng.random()
+    if r < 0.15:
+        ops.append({"op": "del", "dir": _dir(rng), "fd": fd})
+    elif r < 0.25 and nfd > 1:
+        ops.append({"op": "ready", "dir": _dir(rng), "fd": (fd + 1) % nfd})
+    ops.append({"op": "close", "fd": fd})
+    ops.append({"op": "reopen", "fd": fd})
+    # waits on the reused number, each followed (usually) by its readiness
+    c3 = rng.choice(names) if rng.random() < 0.3 else c
+    for _ in range(rng.randint(1, 2)):
+        d = _dir(rng)
+        ops.append(_wait("wait", d, c3, fd))
+        if rng.random() < 0.9:
+            ops.append({"op": "ready", "dir": d, "fd": fd})
+        else:
+            break
+    return {"nfd": nfd, "ops": ops, "family": "reuse"}
+
+
+def gen_dirdel(rng):
+    """one coroutine, one descriptor: both interests (waits that end by time-out or by their readiness), deletion
+    of ONE interest, then waits for the direction that is left and for the deleted one, each with its readiness"""
+    nfd = rng.randint(1, 2)
+    names = _names(rng)
+    fd = rng.randrange(nfd)
+    c = rng.choice(names)
+    ops = []
+
+    def ended_wait(d):
+        if rng.random() < 0.5:
+            ops.append(_wait("waitt", d, c, fd))
+        else:
+            ops.append(_wait("wait", d, c, fd))
+            ops.append({"op": "ready", "dir": d, "fd": fd})
+
+    d1 = _dir(rng)
+    ended_wait(d1)
+    ended_wait(_other(d1))
+    if rng.random() < 0.3:
+        ended_wait(_dir(rng))
+    dd = _dir(rng)
+    ops.append({"op": "del", "dir": dd, "fd": fd})
+    dirs = [_other(dd), dd]
+    rng.shuffle(dirs)
+    if rng.random() < 0.4:
+        dirs.append(_dir(rng))
+    for d in dirs:
+        ops.append(_wait("wait", d, c, fd))
+        ops.append({"op": "ready", "dir": d, "fd": fd})
+    return {"nfd": nfd, "ops": ops, "family": "dirdel"}
+
+
+def gen_free(rng):
+    nfd = rng.randint(2, 3)
+    names = _names(rng)
+    sp = Spec(nfd)
+    for _ in range(rng.randint(3, 12)):
+        r = rng.random()
+        if r < 0.46:
+            kind = "wait" if r < 0.34 else "waitt"
+            free = sp.free(names)
+            if free and rng.random() < 0.95:
+                c = rng.choice(free)
+            else:
+                c = rng.choice(names)
+            sp.push(_wait(kind, _dir(rng), c, rng.randrange(nfd)))
+        elif r < 0.80:
+            waited = sorted({w for w in sp.wait.values() if w[0] >= 0})
+            if waited and rng.random() < 0.7:
+                fd, d = rng.choice(waited)
+            else:
+                fd, d = rng.randrange(nfd), _dir(rng)
+            sp.push({"op": "ready", "dir": d, "fd": fd})
+        elif r < 0.85:
+            sp.push({"op": "del", "fd": rng.randrange(nfd)})
+        elif r < 0.91:
+            sp.push({"op": "del", "dir": _dir(rng), "fd": rng.randrange(nfd)})
+        elif r < 0.96:
+            sp.push({"op": "close", "fd": rng.randrange(nfd)})
+        else:
+            fd = rng.choice(sorted(sp.closed)) if sp.closed else rng.randrange(nfd)
+            sp.push({"op": "reopen", "fd": fd})
+        if sp.closed and rng.random() < 0.4:
+            sp.push({"op": "reopen", "fd": rng.choice(sorted(sp.closed))})
+    return {"nfd": nfd, "ops": sp.ops, "family": "free"}
 
 
 def gen(rng, tier):
-    n = {"quick": 48, "thorough": 400, "search": 160}[tier]
+    n = {"quick": 80, "thorough": 480, "search": 200}[tier]
     cases = []
     while len(cases) < n:
-        c = gen_case(rng, rng.random() < 0.75)
+        r = rng.random()
+        if r < 0.45:
+            c = gen_clean(rng)
+        elif r < 0.68:
+            c = gen_reuse(rng)
+        elif r < 0.82:
+            c = gen_dirdel(rng)
+        else:
+            c = gen_free(rng)
         if c["ops"]:
             cases.append(c)
     return cases
 
 
+def _d(o):
+    return gbool(o.get("dir") == "w")
+
+
+def _fd(o):
+    # slot k is descriptor k+1 of the model: descriptor 0 is never a slot (it is what the runtime falls back to
+    # for a token unknown to TOKEN_FD; the real slots sit at descriptor numbers 240..)
+    return gz(int(o["fd"]) + 1)
+
+
 def _op(o):
-    if o["op"] == "wait":
-        return "Wait %s %s" % (gz(o["id"]), gz(o["fd"]))
-    if o["op"] == "waitt":
-        return "WaitT %s %s" % (gz(o["id"]), gz(o["fd"]))
-    if o["op"] == "ready":
-        return "Ready %s" % gz(o["fd"])
-    return "Del %s" % gz(o["fd"])
+    k = o["op"]
+    if k == "wait":
+        return "Wait %s %s %s" % (_d(o), gz(o["id"]), _fd(o))
+    if k == "waitt":
+        return "WaitT %s %s %s" % (_d(o), gz(o["id"]), _fd(o))
+    if k == "ready":
+        return "Ready %s %s" % (_d(o), _fd(o))
+    if k == "del":
+        if o.get("dir") is None:
+            return "Del %s" % _fd(o)
+        return "DelDir %s %s" % (_d(o), _fd(o))
+    if k == "close":
+        return "Close %s" % _fd(o)
+    if k == "reopen":
+        return "Reopen %s" % _fd(o)
+    raise ValueError("unknown op %r" % (o,))
+
+
+def _kv(k):
+    return gopt(k, lambda t: "(%s, %s, %s)" % (gbool(t[0]), gbool(t[1]), gz(t[2])))
 
 
 def _obs(v):
     if isinstance(v, dict):
         if "reg" in v:
-            return "OReg %s %s" % (gbool(v["reg"]), gopt(v.get("data"), gz))
+            return "OReg %s %s" % (gbool(v["reg"]), _kv(v.get("k")))
         if "regt" in v:
-            return "ORegT %s %s %s" % (gbool(v["regt"]), gopt(v.get("data"), gz), gbool(v["timeout"]))
+            return "ORegT %s %s %s" % (gbool(v["regt"]), _kv(v.get("k")), gbool(v["timeout"]))
         if "event" in v:
             return "OEvent %s %s %s" % (gz(v["event"]), gbool(v["hit"]), glist([gz(x) for x in v["woken"]]))
         if "del" in v:
-            return "ODel %s" % gbool(v["del"])
+            return "ODel %s %s" % (gbool(v["del"]), _kv(v.get("k")))
+        if "close" in v:
+            return "OClose %s" % gbool(v["close"])
     if v == "busy":
         return "OBusy"
     if v == "noevent":
         return "ONoEvent"
+    if v == "reopened":
+        return "OReopen"
     return "OOther"
 
 
 def term(case, obs):
     return "{| c_nfd := %s; c_ops := %s; c_impl := %s |}" % (
-        gz(case["nfd"]), glist([_op(o) for o in case["ops"]]), glist([_obs(v) for v in obs]))
+        gz(int(case["nfd"]) + 1), glist([_op(o) for o in case["ops"]]), glist([_obs(v) for v in obs]))
+
+
+def _missed(case, obs):
+    """a 'noevent' answer to a readiness step (somebody may have been left waiting)"""
+    return any(o["op"] == "ready" and v == "noevent" for o, v in zip(case["ops"], obs))
 
 
 def nontrivial(case, obs, verdict):
-    return any(isinstance(v, dict) and "event" in v for v in obs)
+    return any(isinstance(v, dict) and "event" in v for v in obs) or (not verdict["prop"] and _missed(case, obs))
 
 
 def distribution(results):
-    d = {"wait": 0, "waitt": 0, "ready": 0, "del": 0, "events": 0, "events_hit": 0, "events_waking": 0,
-         "noevent": 0, "busy": 0, "low_id_waits": 0, "high_id_waits": 0, "paired_cases": 0, "other_obs": 0}
+    d = {"wait_r": 0, "wait_w": 0, "waitt_r": 0, "waitt_w": 0, "ready_r": 0, "ready_w": 0, "del": 0, "del_r": 0,
+         "del_w": 0, "close": 0, "reopen": 0, "events": 0, "events_hit": 0, "events_waking": 0, "noevent": 0,
+         "busy": 0, "failed_waits": 0, "low_id_waits": 0, "high_id_waits": 0, "other_obs": 0,
+         "rows_both_interests": 0, "cases_with_both_interests": 0, "cases_with_reuse": 0,
+         "waits_on_reused_number": 0, "write_waits_on_reused_number": 0,
+         "cases_clean": 0, "cases_reuse": 0, "cases_dirdel": 0, "cases_free": 0, "cases_corpus": 0,
+         "cases_in_premises_of_holds_outside": 0, "cases_wf": 0}
     for c, o, v in results:
-        if c.get("paired"):
-            d["paired_cases"] += 1
+        fam = c.get("family")
+        d["cases_" + fam if fam in ("clean", "reuse", "dirdel", "free") else "cases_corpus"] += 1
+        if "premises_of_holds_outside" in v["tags"]:
+            d["cases_in_premises_of_holds_outside"] += 1
+        if "wf" in v["tags"]:
+            d["cases_wf"] += 1
+        both = False
+        closed = set()
+        reused = set()
         for op, ob in zip(c["ops"], o):
-            d[op["op"]] += 1
-            if op["op"] in ("wait", "waitt"):
+            k = op["op"]
+            dr = op.get("dir")
+            if k in ("wait", "waitt", "ready"):
+                d["%s_%s" % (k, dr or "r")] += 1
+            elif k == "del":
+                d["del" if dr is None else "del_" + dr] += 1
+            else:
+                d[k] += 1
+            if k == "close":
+                closed.add(op["fd"])
+            if k == "reopen" and op["fd"] in closed:
+                closed.discard(op["fd"])
+                reused.add(op["fd"])
+            if k in ("wait", "waitt"):
                 if int(op["id"]) < 2**32:
                     d["low_id_waits"] += 1
                 else:
                     d["high_id_waits"] += 1
-            if isinstance(ob, dict) and "event" in ob:
-                d["events"] += 1
-                d["events_hit"] += 1 if ob["hit"] else 0
-                d["events_waking"] += 1 if ob["woken"] else 0
+                if op["fd"] in reused:
+                    d["waits_on_reused_number"] += 1
+                    if dr == "w":
+                        d["write_waits_on_reused_number"] += 1
+            if isinstance(ob, dict):
+                kv = ob.get("k")
+                if kv and kv[0] and kv[1]:
+                    d["rows_both_interests"] += 1
+                    both = True
+                if ("reg" in ob and not ob["reg"]) or ("regt" in ob and not ob["regt"]):
+                    d["failed_waits"] += 1
+                if "event" in ob:
+                    d["events"] += 1
+                    d["events_hit"] += 1 if ob["hit"] else 0
+                    d["events_waking"] += 1 if ob["woken"] else 0
             elif ob == "noevent":
                 d["noevent"] += 1
             elif ob == "busy":
                 d["busy"] += 1
-            elif not isinstance(ob, dict):
+            elif ob != "reopened":
                 d["other_obs"] += 1
+        if both:
+            d["cases_with_both_interests"] += 1
+        if reused:
+            d["cases_with_reuse"] += 1
     return d
 
 
-LEVEL_TEXT = ("Unbounded theorems (all histories of waits, timed-out waits, readiness events and interest deletions, "
-              "all 64-bit coroutine ids, any number of descriptors) about the Gallina model of the token codec "
-              "(mio_adapter.rs), the selector records (selector/mod.rs), COROUTINE_TOKENS / EventLoop::resume "
-              "(event_loop.rs) and the scheduler's suspended table (try_resume): C20_roundtrip (the token the OS "
-              "hands back is the coroutine id, for every id), C20_holds_outside (when a coroutine and a descriptor stay "
-              "paired between deletions, every readiness event resumes exactly the waiters of that descriptor, on the "
-              "event), and the refutation witnesses of the recorded finding registration_outlives_wait (a registration "
-              "and its token outlive the wait: a second coroutine waiting on the descriptor is not resumed by the event, "
-              "a coroutine that moved on to another descriptor is resumed by the old one). The model is tied to the "
-              "real event loop by running the same histories against EventLoops with named coroutines and comparing "
-              "kernel-side tokens (/proc fdinfo), H5 hit/miss and resumed coroutines inside Coq.")
+LEVEL_TEXT = ("Unbounded theorems (all histories of waits and timed-out waits for readability or writability, read and "
+              "write readiness events, deletions of both interests or of one, hooked close and reuse of the descriptor "
+              "number, all 64-bit coroutine ids, any number of descriptors) about the Gallina model of the token codec "
+              "(mio_adapter.rs), the selector records and their bookkeeping (selector/mod.rs: add_read_event, "
+              "add_write_event, del_event, del_read_event, del_write_event, select's record handling; the definitions "
+              "are the ones C21 uses), COROUTINE_TOKENS / EventLoop::resume (event_loop.rs) and the scheduler's "
+              "suspended table (try_resume): C20_roundtrip (the token the OS hands back is the coroutine id, for every "
+              "id), C20_holds_outside (outside the two recorded findings every readiness event resumes, on the event, "
+              "exactly the coroutines waiting for that direction of that descriptor, and a direction the OS has no "
+              "interest for has no waiter, also after close and reuse of the number), C20_reuse_wakes (after ANY history, "
+              "once a number is closed through the runtime and handed out again, a new coroutine waiting for either "
+              "direction of the new socket has its own token and exactly its interest registered and is resumed by the "
+              "readiness event, alone), "
+              "and the refutation witnesses of the recorded findings registration_outlives_wait (a registration and its "
+              "token outlive the wait) and one_token_per_descriptor (two coroutines waiting for the two directions of "
+              "one descriptor share one OS token). The model is tied to the real event loop by running the same "
+              "histories against EventLoops with named coroutines and comparing kernel-side interest and tokens "
+              "(/proc fdinfo), H5 hit/miss and resumed coroutines inside Coq.")
 LEVEL_NOTE = ("Trusted: Coq kernel + vm_compute; hand-written model validated on sampled histories only; epoll modelled "
-              "as a table (edge-triggered, one event per data arrival); one event loop, read interest only; hooks H5 and "
-              "verif_submit_raw_co; timeouts are real time (60 s long / 30 ms short). No axioms (Print Assumptions: "
-              "closed under the global context).")
+              "as a table (edge-triggered, one event per readiness step, no descriptor ready at registration time); "
+              "one event loop; hooks H5 and verif_submit_raw_co; timeouts are real time (60 s long / 30 ms short). No "
+              "axioms (Print Assumptions: closed under the global context).")
